@@ -76,6 +76,14 @@ functions += [
      'anchor': r'inline void IntegerVectorToQuantizedOctahedralCoords\(const int32_t \*int_vec,\s*int32_t \*out_s,\s*int32_t \*out_t\) const\s*\{',
      'sig': 'void OTB_IntegerVectorToQuantizedOctahedralCoords(const struct OTB *self, const int32_t *int_vec, int32_t *out_s, int32_t *out_t)',
      'subst': [ABS, (r'\bCanonicalizeOctahedralCoords\(', 'OTB_CanonicalizeOctahedralCoords(self, ', 1)], 'members': OM},
+    {'name': 'OTB_FloatVectorToQuantizedOctahedralCoords_f32', 'file': NU,
+     'anchor': r'template <class T>\s*void FloatVectorToQuantizedOctahedralCoords\(const T \*vector, int32_t \*out_s,\s*int32_t \*out_t\) const\s*\{',
+     'sig': 'void OTB_FloatVectorToQuantizedOctahedralCoords_f32(const struct OTB *self, const float *vector, int32_t *out_s, int32_t *out_t)',
+     'subst': [(r'std::abs\(static_cast<double>\(', 'fabs(static_cast<double>(', 3), (r'std::abs\(int_vec', 'draco_abs_i32(int_vec', 2),
+               (r'\bIntegerVectorToQuantizedOctahedralCoords\(', 'OTB_IntegerVectorToQuantizedOctahedralCoords(self, ', 1)], 'members': OM, 'tparams': {'T': 'float'}},
+    {'name': 'OTB_CanonicalizeIntegerVector_i32', 'file': NU, 'anchor': r'template <class T>\s*void CanonicalizeIntegerVector\(T \*vec\) const\s*\{',
+     'sig': 'void OTB_CanonicalizeIntegerVector_i32(const struct OTB *self, int32_t *vec)',
+     'subst': [(r'static_cast<int64_t>\(std::abs\(vec\[', 'static_cast<int64_t>(draco_abs_i32(vec[', 3), (r'std::abs\(vec\[', 'draco_abs_i32(vec[', 4)], 'members': OM, 'tparams': {'T': 'int32_t'}},
     {'name': 'OTB_IsInDiamond', 'file': NU, 'anchor': r'inline bool IsInDiamond\(const int32_t &s, const int32_t &t\) const\s*\{',
      'sig': 'bool OTB_IsInDiamond(const struct OTB *self, int32_t s, int32_t t)', 'subst': [ABS], 'members': OM},
     {'name': 'OTB_InvertDiamond', 'file': NU, 'anchor': r'void InvertDiamond\(int32_t \*s, int32_t \*t\) const\s*\{',
@@ -185,3 +193,8 @@ NATIVE_SOURCES = []
 COSIM = True
 TYPES_PRELUDE = ['vec_i32.h', 'core_types.h']
 SLICE_PRELUDE = ['pred_helpers.h']
+
+J('oct.IntegerVectorToQuantizedOctahedralCoords', 'h_oct_intvec', ['C07', 'C02'], native=True)
+for q in (2, 8, 30):
+    J('oct.FloatVector.range.q%d' % q, 'h_oct_floatvec', ['C07'], defines=DEFS + ['-DOCT_Q=%d' % q], cbmc=['--conversion-check'], native=True, timeout=1800, cost=9, tier=None if q in (2, 8) else 'thorough')
+J('oct.CanonicalizeIntegerVector', 'h_oct_canon_intvec', ['C07', 'C02'], native=True, timeout=1800, cost=8)
